@@ -19,6 +19,7 @@ import keyword
 import os
 import re
 import shutil
+import signal
 import tempfile
 import token as _token
 import tokenize
@@ -28,6 +29,30 @@ import warnings
 warnings.filterwarnings("ignore", category=SyntaxWarning)
 
 MAXFIXES = (0, 1, 3)
+CALL_TIMEOUT = float(os.environ.get("VERIF_C20_CALL_TIMEOUT", "8"))     # seconds; a normal call takes milliseconds
+
+
+class HangError(Exception):
+    """raised by the alarm when one call of an entry point does not return in time"""
+
+
+class time_limit:
+    """with time_limit(): ...   (main thread of the process only)"""
+
+    def __init__(self, seconds=None):
+        self.seconds = CALL_TIMEOUT if seconds is None else seconds
+
+    def _fire(self, signum, frame):
+        raise HangError("no answer within %.0f s" % self.seconds)
+
+    def __enter__(self):
+        self.old = signal.signal(signal.SIGALRM, self._fire)
+        signal.setitimer(signal.ITIMER_REAL, self.seconds)
+
+    def __exit__(self, *exc):
+        signal.setitimer(signal.ITIMER_REAL, 0)
+        signal.signal(signal.SIGALRM, self.old)
+        return False
 ENTRIES = ("code_assist", "code_assist_nolater", "get_definition_location", "get_doc", "get_calltip",
            "starting_offset")
 
@@ -97,6 +122,11 @@ def rope_frame(tb):
 def signature_of(entry, exc, tb, text, offset):
     """exc:<Exception>@<innermost rope frame>; BadIdentifierError also carries the entry group (it is an allowed
     refusal of the pyname_at entries on non-identifiers)"""
+    if isinstance(exc, HangError):
+        oi = any("/rope/base/oi/" in fr.filename.replace("\\", "/") for fr in traceback.extract_tb(tb))
+        group = "code_assist" if entry.startswith("code_assist") else (
+            "starting_offset" if entry == "starting_offset" else "pyname_at")
+        return "hang:type-inference" if oi else "hang:" + group
     frame = ALIAS.get(rope_frame(tb), rope_frame(tb))
     name = type(exc).__name__
     if frame == "oi.type-inference":
@@ -120,6 +150,33 @@ ALIAS = {
     "codeassist._get_class_header": "codeassist.PyDocExtractor",
     "codeassist._get_super_methods": "codeassist.PyDocExtractor",
 }
+
+
+ID_RE = re.compile(r"[A-Za-z0-9_]*$")
+
+
+def light_oracle(text, offset, proposals):
+    """textual checks that need no parse (they also apply to the truncated, invalid texts): every proposal
+    extends the identifier characters typed before the cursor; after a dot no keyword is proposed; without a
+    dot no attribute is proposed.  Returns a signature or None."""
+    ls = text.rfind("\n", 0, offset) + 1
+    before = text[ls:offset]
+    if any(ch in before for ch in "'\"#\\"):
+        return None                      # possibly inside a string / comment: the raw text is used there
+    prefix = ID_RE.search(before).group()
+    head = before[:len(before) - len(prefix)].rstrip(" \t")
+    dotted = head.endswith(".")
+    if re.search(r"(^|\s)from\s*\.+$", head) or re.search(r"(^|\s)(from|import)\s", head):
+        return None                      # import statements: dots are relative levels, names are module names
+    for p in proposals:
+        name = p.name[:-1] if p.scope == "parameter_keyword" else p.name
+        if not name.startswith(prefix):
+            return "proposal-does-not-extend-prefix"
+    if dotted and any(p.scope == "keyword" for p in proposals):
+        return "keyword-proposal-after-dot"
+    if not dotted and head and any(p.scope == "attribute" for p in proposals):
+        return "attribute-proposal-without-dot"
+    return None
 
 
 def texts_of(src):
@@ -151,6 +208,8 @@ def call(entry, project, text, offset, maxfixes):
 def judge(entry, exc, valid, on_identifier):
     """None if the outcome is allowed, else a short reason"""
     from rope.base import exceptions
+    if isinstance(exc, HangError):
+        return "no answer within %.0f s" % CALL_TIMEOUT
     if isinstance(exc, exceptions.ModuleSyntaxError):
         return "ModuleSyntaxError on valid Python" if valid else None
     if isinstance(exc, exceptions.BadIdentifierError):
@@ -172,7 +231,20 @@ def sweep_text(project, text, offset, trunc, stats, found, entries=ENTRIES):
                 continue
             stats["calls"] += 1
             try:
-                call(entry, project, text, offset, mf)
+                with time_limit():
+                    got = call(entry, project, text, offset, mf)
+                if entry.startswith("code_assist"):
+                    sig = light_oracle(text, offset, got)
+                    if sig is not None:
+                        stats["oracle-deviation"] = stats.get("oracle-deviation", 0) + 1
+                        rec = found.get(sig)
+                        if rec is None or len(text) < len(rec["text"]):
+                            found[sig] = {"kind": "sweep", "entry": entry, "text": text, "offset": offset,
+                                          "maxfixes": mf, "truncated": trunc, "why": "oracle: " + sig,
+                                          "exception": None, "focus": sig, "count": (rec or {}).get("count", 0) + 1,
+                                          "proposals": sorted((p.name, p.scope) for p in got)[:12]}
+                        else:
+                            rec["count"] += 1
             except Exception as e:  # noqa: BLE001 - the point is to see everything
                 why = judge(entry, e, valid, offset in ids)
                 if why is None:
@@ -219,7 +291,10 @@ def replay_one(rec):
         try:
             text, offset = rec["text"], rec["offset"]
             try:
-                call(rec["entry"], project, text, offset, rec.get("maxfixes", 1))
+                with time_limit():
+                    got = call(rec["entry"], project, text, offset, rec.get("maxfixes", 1))
+                if rec["entry"].startswith("code_assist"):
+                    return light_oracle(text, offset, got)
             except Exception as e:  # noqa: BLE001
                 valid = is_valid(text)
                 ids = identifier_offsets(text) if valid else set()
